@@ -10,8 +10,13 @@
 (* Manager side, one action per critical section of manager.go:             *)
 (*   NotifyScan   a node-type edge point went by on up.root.> -> scan       *)
 (*   TimerScan    the periodic rescan                                       *)
-(*   ScanStart(k) scan found placement k without client state: construct    *)
-(*                the client from the node's current content and run it     *)
+(*   ScanBuild(k) scan found placement k without client state: read the     *)
+(*                node's children and construct the client from them        *)
+(*   Subscribe(k) ... then subscribe to the node's updates, read the        *)
+(*                children again and stop the client at once if they are no *)
+(*                longer the ones it was built from.  The environment can   *)
+(*                act between the two steps (a child added there is         *)
+(*                announced to nobody).                                     *)
 (*   ScanStop(k)  scan found a client state whose placement is gone: stop   *)
 (*   ClientSees(k) the client's own subscription sees a tombstone / node    *)
 (*                type edge point on its node or a child: stop (restart)    *)
@@ -20,16 +25,20 @@
 (*                                                                         *)
 (* AsCodedScan: scan returns early when it finds no node of the type at     *)
 (* all, so the last client of a type is never stopped by a scan (F7a).      *)
+(* AsCodedSubscribe: no second look at the children after subscribing, so a *)
+(* client built from a child set that changed in the window runs on with    *)
+(* it (finding construct-races-change).  Both are FALSE for the fixed code. *)
 (***************************************************************************)
 EXTENDS Integers, Sequences, FiniteSets, TLC
 
 CONSTANTS Keys,          \* candidate placements
           MaxEnv,        \* bound on environment steps
-          AsCodedScan
+          AsCodedScan,
+          AsCodedSubscribe
 
 VARIABLES live,      \* SUBSET Keys: placements that must have a client
           kidsVer,   \* [Keys -> Nat]: version of the child set
-          cs,        \* [Keys -> {"absent", "running", "stopping"}]
+          cs,        \* [Keys -> {"absent", "building", "running", "stopping"}]
           cfgVer,    \* [Keys -> Nat]: child-set version the running client was built from
           seen,      \* [Keys -> Nat]: newest child-set version the client's subscription has been told of
           told,      \* SUBSET Keys: clients whose subscription holds an unprocessed tombstone of their own edge
@@ -63,22 +72,29 @@ EnvKids(k) ==     \* a child is added or removed
     /\ UNCHANGED <<live, cs, cfgVer, seen, told, scanReq, stopping, returned>>
 
 \* ---- manager
-TimerScan == /\ ~stopping /\ ~scanReq /\ scanReq' = TRUE
+\* scan, the handling of an exited client and Stop all run on the manager's one goroutine: none
+\* of them happens while a scan sits between building a client and subscribing for it
+Idle == \A k \in Keys : cs[k] # "building"
+TimerScan == /\ ~stopping /\ ~scanReq /\ Idle /\ scanReq' = TRUE
              /\ UNCHANGED <<live, kidsVer, cs, cfgVer, seen, told, stopping, returned, envSteps>>
-ScanStart(k) ==
-    /\ scanReq /\ ~stopping /\ k \in live /\ cs[k] = "absent"
-    /\ cs' = [cs EXCEPT ![k] = "running"]
+ScanBuild(k) ==
+    /\ scanReq /\ ~stopping /\ Idle /\ k \in live /\ cs[k] = "absent"
+    /\ cs' = [cs EXCEPT ![k] = "building"]
     /\ cfgVer' = [cfgVer EXCEPT ![k] = kidsVer[k]]
-    /\ seen' = [seen EXCEPT ![k] = kidsVer[k]]
     /\ told' = told \ {k}
-    /\ UNCHANGED <<live, kidsVer, scanReq, stopping, returned, envSteps>>
+    /\ UNCHANGED <<live, kidsVer, seen, scanReq, stopping, returned, envSteps>>
+Subscribe(k) ==
+    /\ cs[k] = "building"
+    /\ seen' = [seen EXCEPT ![k] = kidsVer[k]]
+    /\ cs' = [cs EXCEPT ![k] = IF ~AsCodedSubscribe /\ cfgVer[k] # kidsVer[k] THEN "stopping" ELSE "running"]
+    /\ UNCHANGED <<live, kidsVer, cfgVer, told, scanReq, stopping, returned, envSteps>>
 ScanStop(k) ==
-    /\ scanReq /\ ~stopping /\ k \notin live /\ cs[k] = "running"
+    /\ scanReq /\ ~stopping /\ Idle /\ k \notin live /\ cs[k] = "running"
     /\ (AsCodedScan => live # {})
     /\ cs' = [cs EXCEPT ![k] = "stopping"]
     /\ UNCHANGED <<live, kidsVer, cfgVer, seen, told, scanReq, stopping, returned, envSteps>>
 ScanDone ==   \* nothing left to do for this scan
-    /\ scanReq
+    /\ scanReq /\ Idle
     /\ \A k \in Keys : ~(k \in live /\ cs[k] = "absent") /\ ~(k \notin live /\ cs[k] = "running" /\ (AsCodedScan => live # {}))
     /\ scanReq' = FALSE
     /\ UNCHANGED <<live, kidsVer, cs, cfgVer, seen, told, stopping, returned, envSteps>>
@@ -91,12 +107,12 @@ ClientSees(k) ==
     /\ cs' = [cs EXCEPT ![k] = "stopping"]
     /\ UNCHANGED <<live, kidsVer, cfgVer, scanReq, stopping, returned, envSteps>>
 Exited(k) ==
-    /\ cs[k] = "stopping"
+    /\ cs[k] = "stopping" /\ Idle
     /\ cs' = [cs EXCEPT ![k] = "absent"]
     /\ scanReq' = IF stopping THEN scanReq ELSE TRUE
     /\ UNCHANGED <<live, kidsVer, cfgVer, seen, told, stopping, returned, envSteps>>
 StopManager ==
-    /\ ~stopping /\ stopping' = TRUE
+    /\ ~stopping /\ Idle /\ stopping' = TRUE
     /\ cs' = [k \in Keys |-> IF cs[k] = "running" THEN "stopping" ELSE cs[k]]
     /\ UNCHANGED <<live, kidsVer, cfgVer, seen, told, scanReq, returned, envSteps>>
 Returned ==
@@ -107,17 +123,17 @@ Returned ==
 Env == \/ \E k \in Keys : EnvCreate(k) \/ EnvDelete(k) \/ EnvKids(k)
        \/ \E S \in SUBSET Keys : EnvDeleteAbove(S)
 Mgr == \/ TimerScan \/ ScanDone \/ Returned
-       \/ \E k \in Keys : ScanStart(k) \/ ScanStop(k) \/ ClientSees(k) \/ Exited(k)
+       \/ \E k \in Keys : ScanBuild(k) \/ Subscribe(k) \/ ScanStop(k) \/ ClientSees(k) \/ Exited(k)
 Next == Env \/ Mgr \/ StopManager
 Spec == Init /\ [][Next]_mvars
 \* every manager / client step that stays enabled is eventually taken (each on its own: a busy
 \* timer must not starve a client that is exiting)
 FairSpec == /\ Spec /\ WF_mvars(TimerScan) /\ WF_mvars(ScanDone) /\ WF_mvars(Returned)
-            /\ \A k \in Keys : /\ WF_mvars(ScanStart(k)) /\ WF_mvars(ScanStop(k))
+            /\ \A k \in Keys : /\ WF_mvars(ScanBuild(k)) /\ WF_mvars(Subscribe(k)) /\ WF_mvars(ScanStop(k))
                                 /\ WF_mvars(ClientSees(k)) /\ WF_mvars(Exited(k))
 
 \* ---- properties
-TypeOK == /\ live \subseteq Keys /\ cs \in [Keys -> {"absent", "running", "stopping"}]
+TypeOK == /\ live \subseteq Keys /\ cs \in [Keys -> {"absent", "building", "running", "stopping"}]
 \* quiescent: nothing for the manager to do but wait for the timer
 Quiet == /\ \A k \in Keys : (k \in live <=> cs[k] = "running") /\ (cs[k] # "stopping")
          /\ \A k \in live : cfgVer[k] = kidsVer[k]
